@@ -391,7 +391,7 @@ func instantiateGlob(r *rand.Rand, g string, hit bool) string {
 // registered string, so only a matcher that treats the literal as a pattern can accept it.
 func metaSubst(r *rand.Rand, b string) (string, bool) {
 	type site struct {
-		from, to int
+		from, to  int
 		hit, miss []string
 	}
 	var sites []site
